@@ -368,6 +368,33 @@ Theorem C10_pool_share_exclusive :
 Proof. exact PS.pool_share_exclusive. Qed.
 Print Assumptions C10_pool_share_exclusive.
 
+(** Why signal takes and releases the row mutex before Broadcast: the variant without that
+    pair loses a wake-up (a waiter committed to cond.Wait is overtaken by store + load +
+    Broadcast-to-nobody and sleeps for ever) ... *)
+From Webp Require Conc.ConcWaitSignalNoLock.
+From WebpGen Require RowSyncSrc.
+Module NL := Conc.ConcWaitSignalNoLock.
+Theorem C10_nolock_lost_wakeup_refuted : ~ NL.nolock_no_lost_wakeup.
+Proof. exact NL.nolock_lost_wakeup_refuted. Qed.
+Print Assumptions C10_nolock_lost_wakeup_refuted.
+
+Theorem C10_nolock_deadlock_witness :
+  exists s, NL.run_nolock 1 (W.init 1 [[1]]) NL.lost_wakeup_schedule = Some s /\
+            W.finished s = false /\ forall l, NL.step_nolock 1 s l = None.
+Proof. exact NL.nolock_deadlock_witness. Qed.
+Print Assumptions C10_nolock_deadlock_witness.
+
+(** ... and the code has the pair: the statement lists of waitFor and signal, the worker
+    loop and the call order of encodeRow's macroblock loop (hook lines removed), regenerated
+    from the source, are the texts the L1 / L2 models transcribe. *)
+Theorem C10_rowsync_source_matches_model :
+  WebpGen.RowSyncSrc.waitFor_body = NL.modelled_waitFor_body /\
+  WebpGen.RowSyncSrc.signal_body = NL.modelled_signal_body /\
+  WebpGen.RowSyncSrc.worker_body = NL.modelled_worker_body /\
+  WebpGen.RowSyncSrc.encodeRow_mb_calls = NL.modelled_encodeRow_mb_calls.
+Proof. repeat split; reflexivity. Qed.
+Print Assumptions C10_rowsync_source_matches_model.
+
 (** Fork–join sections (shared with C12): disjoint writes + join make the result
     independent of the interleaving, the worker count and the partition; work-queue
     sections (DecodeFramesParallel) are independent of the order in which items are taken. *)
